@@ -28,6 +28,7 @@ type Env struct {
 	loop    *loopInfo
 	depth   int
 	results []Val
+	noHeap  bool
 }
 
 func (u *Unit) newEnv(h Heap) *Env {
@@ -407,7 +408,7 @@ func (e *Env) binary(n *ast.BinaryExpr) Val {
 		return bval(not(eq(a.T, b.T)))
 	case token.ADD:
 		if a.S == "Str" {
-			return Val{T: app("concat", a.T, b.T), Ty: a.Ty, S: "Str"}
+			return Val{T: app("strcat", a.T, b.T), Ty: a.Ty, S: "Str"}
 		}
 	}
 	return e.fail("unsupported binary %s on %s", n.Op, a.S)
@@ -647,6 +648,10 @@ func (e *Env) callExpr(n *ast.CallExpr) Val {
 		v := arg(0)
 		switch {
 		case v.S == "Slice" || v.S == "SliceBV":
+			if !so.bv && !strings.Contains(v.T, "!q") && !strings.Contains(v.T, "!s") {
+				// well-formedness of any slice value held in the heap
+				u.assume(app("<=", "0", app("s_len", v.T)))
+			}
 			return Val{T: app("s_len", v.T), Ty: intT, S: so.idxSort()}
 		case v.S == "Str":
 			return e.ival(app("strlen", v.T))
@@ -706,9 +711,9 @@ func (e *Env) callExpr(n *ast.CallExpr) Val {
 	case "errmsg":
 		v := arg(0)
 		return Val{T: app("errmsg", app("i_val", v.T)), Ty: types.Typ[types.String], S: "Str"}
-	case "concat":
+	case "strcat":
 		a, b := arg(0), arg(1)
-		return Val{T: app("concat", a.T, b.T), Ty: a.Ty, S: "Str"}
+		return Val{T: app("strcat", a.T, b.T), Ty: a.Ty, S: "Str"}
 	case "fresh":
 		// fresh(x): reference allocated after function entry
 		v := arg(0)
@@ -741,11 +746,34 @@ func (e *Env) callExpr(n *ast.CallExpr) Val {
 		return e.ival(app("bitof", a.T, b.T))
 	case "bits", "sbits":
 		return e.bitsSpec(name, arg(0), arg(1), arg(2))
+	case "bitsat", "sbitsat":
+		// bitsat(s, byteIndex, p, n): like bits(s, 8*byteIndex+p, n) with literal p, n
+		src, bi, p, nn := arg(0), arg(1), arg(2), arg(3)
+		arr, off := e.byteSource(src)
+		pl, okp := parseLit(p.T)
+		nl, okn := parseLit(nn.T)
+		if !okp || !okn || so.bv {
+			e.fail("bitsat needs literal bit offset and width (int mode)")
+		}
+		nm := "bits"
+		if name == "sbitsat" {
+			nm = "sbits"
+		}
+		return e.ival(u.bitsLiteral(nm, arr, iadd(off, bi.T), uint(pl.Uint64()), uint(nl.Uint64())))
+	case "stamp":
+		c := arg(0)
+		return Val{T: sel(u.comp(e.heap, "ChStamp", "(Array Int (Array Int Int))"), c.T), Ty: &seqType{elem: intT}, S: "(Array Int Int)"}
 	case "recvd", "sentn", "closed", "feedlen":
 		c := arg(0)
 		switch name {
 		case "recvd":
-			return e.ival(sel(u.comp(e.heap, "ChRecv", "(Array Int Int)"), c.T))
+			r := sel(u.comp(e.heap, "ChRecv", "(Array Int Int)"), c.T)
+			if !strings.Contains(r, "!q") && !strings.Contains(r, "!s") {
+				// channel model invariant: 0 <= received <= length of the feed
+				u.declFun("feedlen", "(Int) Int")
+				u.assume(and(app("<=", "0", r), app("<=", r, app("feedlen", c.T))))
+			}
+			return e.ival(r)
 		case "sentn":
 			return e.ival(sel(u.comp(e.heap, "ChSentN", "(Array Int Int)"), c.T))
 		case "closed":
@@ -819,6 +847,17 @@ func (e *Env) callExpr(n *ast.CallExpr) Val {
 		old := sub.eval(n.Args[0])
 		return bval(eq(cur.T, old.T))
 	}
+	if pr, ok := u.eng.lib.Preds[name]; ok {
+		var args []string
+		for i := range n.Args {
+			args = append(args, arg(i).T)
+		}
+		if len(args) != len(pr.Params) {
+			e.fail("predicate %s expects %d arguments", name, len(pr.Params))
+		}
+		u.usePred(pr)
+		return bval(app(pr.Name, args...))
+	}
 	// library macro
 	if m, ok := u.eng.lib.Macros[name]; ok {
 		var args []Val
@@ -853,6 +892,11 @@ func (u *Unit) useUF(d *UFDecl) {
 		return
 	}
 	u.declFun(d.Name, "("+strings.Join(d.Args, " ")+") "+d.Ret)
+	if d.Name == "crchash" {
+		if dd := u.eng.lib.UFs["crcdiff"]; dd != nil {
+			u.useUF(dd)
+		}
+	}
 	// add axioms triggered by this UF once all their triggers are declared
 	for _, ax := range u.eng.lib.Axioms {
 		if ax.Lemma {
@@ -869,8 +913,12 @@ func (u *Unit) useUF(d *UFDecl) {
 			}
 		}
 		if all && mine {
-			env := u.newEnv(Heap{})
-			u.assume(env.evalBool(ax.Expr))
+			if ax.Raw != "" {
+				u.emit("(assert " + ax.Raw + ")")
+			} else {
+				env := u.newEnv(Heap{})
+				u.assume(env.evalBool(ax.Expr))
+			}
 			u.assumed["axiom "+ax.Name+": "+ax.Text] = true
 		}
 	}
@@ -886,11 +934,14 @@ func (e *Env) seqeq(s, q, a, b Val) string {
 		qa = app("q_arr", q.T)
 	}
 	u.nfresh++
-	k := fmt.Sprintf("k!s%d", u.nfresh)
+	// the bound variable is the absolute index into the slice's backing array, so
+	// that the array read is an arithmetic-free trigger
+	j := fmt.Sprintf("j!s%d", u.nfresh)
 	n := isub(b.T, a.T)
+	off := app("s_off", s.T)
 	return and(eq(app("s_len", s.T), n),
-		fmt.Sprintf("(forall ((%s Int)) %s)", k, implies(and(icmp("<=", "0", k), icmp("<", k, n)),
-			eq(sel(arr, iadd(app("s_off", s.T), k)), sel(qa, iadd(a.T, k))))))
+		fmt.Sprintf("(forall ((%s Int)) (! %s :pattern (%s)))", j, implies(and(icmp("<=", off, j), icmp("<", j, iadd(off, n))),
+			eq(sel(arr, j), sel(qa, iadd(a.T, isub(j, off))))), sel(arr, j)))
 }
 
 func (e *Env) sliceeq(s, t Val, hs, ht Heap) string {
@@ -969,6 +1020,9 @@ func (u *Unit) bitsLiteral(name, arr, off string, p, n uint) string {
 	v := "0"
 	for j := uint(0); j < nb; j++ {
 		b := sel(arr, iadd(off, ilit(int64(lo+j))))
+		if !strings.Contains(b, "!q") && !strings.Contains(b, "!s") && !strings.Contains(b, "!d") {
+			u.assume(and(app("<=", "0", b), app("<=", b, "255"))) // a byte
+		}
 		v = iadd(v, imul(b, ilitB(pow2(8*(nb-1-j)))))
 	}
 	trailing := 8*(hi+1) - (p + n)
@@ -987,4 +1041,31 @@ func (u *Unit) bitsTerm(name, arr, pos, n string) string {
 	u.declFun("bits", "((Array Int Int) Int Int) Int")
 	u.declFun("sbits", "((Array Int Int) Int Int) Int")
 	return app(name, arr, pos, n)
+}
+
+// usePred declares an opaque predicate and its definitional axiom.
+func (u *Unit) usePred(pr *Pred) {
+	if u.declFuns[pr.Name] {
+		return
+	}
+	u.declFun(pr.Name, "("+strings.Join(pr.Sorts, " ")+") Bool")
+	env := u.newEnv(nil)
+	env.noHeap = true
+	var binders []string
+	var names []string
+	for i, p := range pr.Params {
+		bn := p + "!d"
+		binders = append(binders, "("+bn+" "+pr.Sorts[i]+")")
+		names = append(names, bn)
+		var ty types.Type
+		if pr.Sorts[i] == "Int" {
+			ty = intT
+		} else if strings.HasPrefix(pr.Sorts[i], "(Array Int Int") {
+			ty = &seqType{elem: types.Typ[types.Uint8]}
+		}
+		env.vars[p] = Val{T: bn, Ty: ty, S: pr.Sorts[i]}
+	}
+	body := env.evalBool(pr.Body)
+	head := app(pr.Name, names...)
+	u.emit(fmt.Sprintf("(assert (forall (%s) (! (= %s %s) :pattern (%s))))", strings.Join(binders, " "), head, body, head))
 }
